@@ -36,6 +36,12 @@ def draws_for(weights, sims):
         us, bs = [], []
         for r, t in sim:
             k = pos[min(int(r * len(pos)), len(pos) - 1)]
+            if t == 1:
+                # the largest double below 1 belongs to the last bin of positive rate (its upper cumulative bound is exactly 1 after
+                # normalisation; trailing zero-rate bins are never hit) - exact for any weights
+                us.append(1.0 - 2.0 ** -53)
+                bs.append(pos[-1])
+                continue
             if t == 0:
                 # the one boundary that is exact for any weights: u = 0.0 belongs to the first bin of positive rate (leading
                 # zero-rate bins have cumulative weight exactly 0 and are never hit)
@@ -180,7 +186,7 @@ def cases(draw, max_events=300):
     c = draw(G.setups(max_events=max_events))
     n = len(c["obs"])
     k = draw(st.integers(1, 5))
-    c["sims"] = [[[draw(st.floats(0, 0.999999)), draw(st.sampled_from([0.5, 0.1, 0.9, 0.01, 0.99, 0]))] for _ in range(n)] for _ in range(k)] if n <= 40 else \
+    c["sims"] = [[[draw(st.floats(0, 0.999999)), draw(st.sampled_from([0.5, 0.1, 0.9, 0.01, 0.99, 0, 1]))] for _ in range(n)] for _ in range(k)] if n <= 40 else \
         [draw(st.lists(st.tuples(st.floats(0, 0.999999), st.sampled_from([0.5, 0.1, 0.9])).map(list), min_size=n, max_size=n)) for _ in range(k)]
     c["seed"] = draw(st.integers(0, 2**31 - 1))
     return c
